@@ -144,7 +144,9 @@ static void UAT(conserve_op)(int me, struct op *op)
 
 enum {
 	L_NONE, L_SMP_MB, L_STORE_SEQ_CST_FENCE, L_XCHG, L_CMPXCHG_OK, L_CMPXCHG_FAIL_THEN_MB, L_ADD_RETURN,
-	L_SUB_RETURN, L_STORE_SEQ_CST, L_NK
+	L_SUB_RETURN, L_STORE_SEQ_CST,
+	/* the operation itself is the (fully ordered) read of the other variable; operand a literal 0 */
+	L_ADD_RETURN_ZERO_READ, L_SUB_RETURN_ZERO_READ, L_CMPXCHG_ZERO_READ, L_ADD_RETURN_ZERO_DUMMY, L_NK
 };
 
 static unsigned long lx, ly, ldummy[2];
@@ -185,6 +187,19 @@ static unsigned long UAT(sb_side)(unsigned long *mine, unsigned long *other, int
 	case L_SUB_RETURN:
 		uatomic_set(mine, 1);
 		(void) uatomic_sub_return(&ldummy[side], 1);
+		break;
+	case L_ADD_RETURN_ZERO_READ:
+		uatomic_set(mine, 1);
+		return uatomic_add_return(other, 0);
+	case L_SUB_RETURN_ZERO_READ:
+		uatomic_set(mine, 1);
+		return uatomic_sub_return(other, 0);
+	case L_CMPXCHG_ZERO_READ:
+		uatomic_set(mine, 1);
+		return uatomic_cmpxchg(other, 0, 0);	/* reading 0 means it succeeded: a full barrier */
+	case L_ADD_RETURN_ZERO_DUMMY:
+		uatomic_set(mine, 1);
+		(void) uatomic_add_return(&ldummy[side], 0);
 		break;
 	}
 	return uatomic_read(other);
@@ -397,7 +412,8 @@ void scen_uatomic(void)
 	unsigned long sum[4] = { 0, 0, 0, 0 };
 	long ntokens_written = 0, toksum = 0, collected = 0;
 	static const char *const lname[] = { "none", "cmm_smp_mb", "store(SEQ_CST_FENCE)", "xchg", "cmpxchg(success)",
-		"cmpxchg(fail)+mb", "add_return", "sub_return", "store(SEQ_CST)" };
+		"cmpxchg(fail)+mb", "add_return", "sub_return", "store(SEQ_CST)",
+		"r=add_return(other,0)", "r=sub_return(other,0)", "r=cmpxchg(other,0,0)", "add_return(dummy,0)" };
 
 	no_faults();
 	impl = (int) usim_param("impl", rnd(2));
